@@ -8,7 +8,6 @@ import (
 
 	"github.com/ChrisTrenkamp/xsel/node"
 	"github.com/ChrisTrenkamp/xsel/store"
-	"golang.org/x/text/language"
 )
 
 type Function func(context Context, args ...Result) (Result, error)
@@ -433,23 +432,24 @@ func lang(context Context, args ...Result) (Result, error) {
 	return Bool(false), nil
 }
 
+// checkLang reports whether the language targStr (the value of xml:lang) is
+// the same as srcStr or a sublanguage of it, ignoring ASCII case: they are
+// equal, or targStr starts with srcStr followed by '-'.
 func checkLang(srcStr, targStr string) Bool {
-	srcLang := language.Make(srcStr)
-	srcRegion, srcRegionConf := srcLang.Region()
+	src := asciiLower(srcStr)
+	targ := asciiLower(targStr)
 
-	targLang := language.Make(targStr)
-	targRegion, targRegionConf := targLang.Region()
+	return Bool(targ == src || strings.HasPrefix(targ, src+"-"))
+}
 
-	if srcRegionConf == language.Exact && targRegionConf != language.Exact {
-		return Bool(false)
-	}
+func asciiLower(str string) string {
+	return strings.Map(func(r rune) rune {
+		if r >= 'A' && r <= 'Z' {
+			return r + ('a' - 'A')
+		}
 
-	if srcRegion != targRegion && srcRegionConf == language.Exact && targRegionConf == language.Exact {
-		return Bool(false)
-	}
-
-	_, _, conf := language.NewMatcher([]language.Tag{srcLang}).Match(targLang)
-	return Bool(conf >= language.High)
+		return r
+	}, str)
 }
 
 func number0(context Context, args ...Result) (Result, error) {
